@@ -299,6 +299,36 @@ class SymEx:
             return self._finish(path, "diverge", b)
 
 
+def mentions(e, needle):
+    """does the expression tree `e` contain the sub-expression `needle`?"""
+    if e == needle:
+        return True
+    if isinstance(e, tuple):
+        return any(mentions(x, needle) for x in e if isinstance(x, tuple))
+    return False
+
+
+def vec_literal_hook(sx, path, t, name, args):
+    """call_hook that gives `vec![a, b, c]` its elements: on this nightly the literal is
+    `b = Box::new_uninit(); (*b.ptr).value = [a, b, c]; box_assume_init_into_vec_unsafe(b)` (the array is written through
+    a raw pointer derived from the box), older forms are `into_vec(box [a, b, c])`.  Returns ("agg", "vec", elems)."""
+    if not args:
+        return None
+    if "box_assume_init_into_vec" in name:
+        box = args[0]
+        for ev in reversed(path.events):
+            if ev[0] == "store" and ev[2][0] == "agg" and ev[2][1] == "array" and mentions(ev[1], box):
+                return ("agg", "vec", ev[2][2])
+        return None
+    if name.endswith("::into_vec"):
+        a = args[0]
+        while a[0] in ("cast", "ref"):
+            a = a[2] if a[0] == "cast" else a[1]
+        if a[0] == "agg" and a[1] == "array":
+            return ("agg", "vec", a[2])
+    return None
+
+
 def const_value(e):
     if e[0] == "k" and isinstance(e[1], (int, bool)):
         return int(e[1])
